@@ -428,7 +428,7 @@ fn main() {
     }
     rep.assumption("IPv6 flow info and scope ids are always 0 (the statement exempts them)");
     let threads = a.extra_u64("threads", a.pick(4u64, 16));
-    let per_thread = a.extra_u64("cases", a.pick(25_000u64, 700_000));
+    let per_thread = a.extra_u64("cases", a.pick(25_000u64, 500_000));
     std::thread::scope(|s| {
         for shard in 0..threads {
             let rep = &rep;
